@@ -203,7 +203,7 @@ def phase_object_signature_tamper(col, case, spec, pos, rnd, t_signed):
         li = tt.inputs[k]
         if not li.signatures:
             continue
-        j = rnd.randrange(len(li.signatures))
+        j = rnd.randrange(min(len(li.signatures), max(1, li.sigs_required or 1)))   # only the first m signatures are serialised
         old = li.signatures[j]
         variant = rnd.choice(['foreign', 's+1'])
         try:
@@ -218,6 +218,11 @@ def phase_object_signature_tamper(col, case, spec, pos, rnd, t_signed):
             li.update_scripts(hash_type=li.hash_type)
         except Exception as e:
             col.probe('object_sig_tamper_not_applicable')
+            continue
+        if inp['kind'] == 'p2pk':
+            # P2PK inputs keep the scriptSig of the first signing pass (K_P2PK_RESIGN): the object then describes two different
+            # spends (signature list vs serialised script), nothing to judge here
+            col.probe('object_sig_tamper_p2pk_skipped')
             continue
         judge(col, case, 'obj-signature-%s:%d' % (variant, k), tt, pos, (inp['kind'], 'obj-sig', variant), demand_false=True)
 
